@@ -663,9 +663,16 @@ class RemoteStreamFlowPath(
                 "--",
                 f"{shlex.quote(str(self))}/{pattern}",
                 ";",
+                "{",
                 "test",
                 "-e",
                 '"$1"',
+                "||",
+                "test",
+                "-L",
+                '"$1"',
+                ";",
+                "}",
                 "&&",
                 "printf",
                 "'%s\\n'",
